@@ -67,6 +67,9 @@ def check_program(col, pp, cfg, prog, queries=None, draw=None):
             mag = max([programs.amount_in(world, snap[k], world.subs[si].name) for snap in eager.snapshots for k in snap] + [0.0])
             unit = programs.natural_units(draw, world.subs[si], mag)
             queries.append({'sub': si, 'timeframe': tf, 'dest': dest, 'unit': unit})
+            if draw(st.integers(0, 3)) == 0 and dest != ['#unknown']:
+                # the same question again in another unit: answers must not depend on what was asked before
+                queries.append({'sub': si, 'timeframe': tf, 'dest': dest, 'unit': programs.natural_units(draw, world.subs[si], mag)})
     values = {}
     for q in queries:
         col.case()
